@@ -1,19 +1,22 @@
 #!/bin/sh
-# usage: tools/eval_refactor.sh <name>   (refactor*.diff in /tmp/wt-out/<name>): behaviour-preserving
-# refactorings written by a sub-agent; every check must stay quiet on each of them.
+# usage: tools/eval_refactor.sh <name> [notests]  (refactor*.diff in /tmp/wt-out/<name>): behaviour-preserving
+# refactorings written by a sub-agent; every check must stay quiet on each of them.  Runs against a
+# scratch worktree (DASHLIVE_REPO), never against /repo, so several can run at once.
 NAME=$1; OUT=/tmp/wt-out/$NAME
 PROPS=$(/venv/bin/python -c "import json;print(' '.join(c['property_id'] for c in json.load(open('/verif/MANIFEST.json'))['checks']))")
 for f in $OUT/refactor*.diff; do
   echo "=== $NAME $(basename $f)"
-  WT=/tmp/ev/$NAME; mkdir -p /tmp/ev
+  WT=/tmp/ev/$NAME-$(basename $f .diff); mkdir -p /tmp/ev
   git -C /repo worktree add -q --detach $WT HEAD || exit 2
-  (cd $WT && (git apply $f 2>/dev/null) && /venv/bin/python -m pytest -q -p no:cacheprovider --timeout=900 --continue-on-collection-errors 2>&1 | tail -1) || echo "PATCH DOES NOT APPLY (worktree)"
+  if (cd $WT && git apply $f 2>/dev/null); then
+    [ "$2" = notests ] || (cd $WT && /venv/bin/python -m pytest -q -p no:cacheprovider --timeout=900 --continue-on-collection-errors 2>&1 | tail -1)
+    cd /verif
+    for p in $PROPS; do
+      out=$(SA_NO_EVIDENCE=1 DASHLIVE_REPO=$WT /venv/bin/python -B -m sa.check $p --tier quick 2>&1); code=$?
+      if [ $code -ne 0 ]; then echo "[$p exit=$code]"; echo "$out" | grep -E "VIOLATION|^  R|ANALYSIS-ERROR" | cut -c1-360 | head -6; fi
+    done
+  else
+    echo "PATCH DOES NOT APPLY"
+  fi
   git -C /repo worktree remove --force $WT
-  git -C /repo apply $f 2>/dev/null || { echo "PATCH DOES NOT APPLY TO /repo"; git -C /repo reset -q --hard HEAD; continue; }
-  cd /verif
-  for p in $PROPS; do
-    out=$(./check $p --tier quick 2>&1); code=$?
-    if [ $code -ne 0 ]; then echo "[$p exit=$code]"; echo "$out" | grep -E "VIOLATION|^  R|ANALYSIS-ERROR" | cut -c1-360 | head -6; fi
-  done
-  git -C /repo reset -q --hard HEAD; git -C /repo status --short | head -3
 done
